@@ -1220,10 +1220,10 @@ func (as *AbacoSource) distributeData(buffersMsg AbacoBuffersType) *dataBlock {
 				droppedFrames:   buffersMsg.droppedFrames,
 			}
 			block.segments[channelIndex] = seg
-			block.nSamp = len(data)
 		}(channelIndex)
 	}
 	wg.Wait()
+	block.nSamp = framesUsed // set once, here: every per-channel goroutine used to write it
 	as.nextFrameNum += FrameIndex(framesUsed)
 	if as.heartbeats != nil {
 		pmb := float64(buffersMsg.totalBytes) / 1e6
